@@ -10,6 +10,7 @@ import (
 	"time"
 
 	"github.com/cnotch/ipchub/stats"
+	"github.com/cnotch/ipchub/utils/verifhook"
 	"github.com/cnotch/queue"
 	"github.com/cnotch/xlog"
 )
@@ -95,7 +96,9 @@ func (c *consumption) consume() {
 	}()
 
 	for !c.closed {
+		verifhook.Point("consume.pop", uint32(c.cid))
 		p := c.recvQueue.Pop()
+		verifhook.Point("consume.got", uint32(c.cid))
 		if p == nil {
 			if !c.closed {
 				c.logger.Warn("receive nil pack")
